@@ -73,6 +73,30 @@ def alias_case(rng, props):
             "meta": {"props": props, "order": order, "nt": True, "nested": None, "alias": True}}
 
 
+def failing_history(rng, props):
+    """A Schema value over the same property names whose Marshal FAILS after some listed names were written: the property value at
+    position k cannot be marshaled (duplicate PropertyOrder, Type together with Types, or a failing grand-child). What an earlier,
+    abandoned Marshal call left behind must not show in the next one."""
+    names = list(dict.fromkeys(props))
+    rng.shuffle(names)
+    k = rng.randrange(len(names))
+    how = rng.choice(["dup", "types", "deep"])
+    nodes = [{"Properties": [], "PropertyOrder": names[:rng.randint(k + 1, len(names))] if rng.random() < 0.8 else names}]
+    for i, pn in enumerate(names):
+        if i == k:
+            if how == "dup":
+                nodes.append({"Properties": [], "PropertyOrder": ["u", "u"]})
+            elif how == "types":
+                nodes.append({"Type": "string", "Types": ["string", "null"]})
+            else:
+                nodes.append({"Not": len(names) + 1})
+        else:
+            nodes.append({"Type": "string"})
+        nodes[0]["Properties"].append([pn, len(nodes) - 1])
+    nodes.append({"Type": "number", "Types": ["number"]})
+    return {"nodes": nodes, "root": 0}
+
+
 def _gen(rng, tier, n):
     ops = []
     base = NAMES[:4]
@@ -104,7 +128,10 @@ def _gen(rng, tier, n):
             ops.append(alias_case(rng, props))
             continue
         nested = rng.choice(props) if props and rng.random() < 0.3 else None
-        ops.append({"op": "marshal", "args": {"desc": mk(props, order, nested)},
+        args = {"desc": mk(props, order, nested)}
+        if props and rng.random() < 0.2:
+            args["pre"] = [failing_history(rng, props)]
+        ops.append({"op": "marshal", "args": args,
                     "meta": {"props": props, "order": order or [], "nt": len(props) >= 2, "nested": nested}})
     return ops
 
